@@ -34,6 +34,7 @@ from __future__ import annotations
 import importlib
 import json
 import logging
+import os
 import random
 import re
 
@@ -718,8 +719,13 @@ _SRC = {s["name"]: s for s in SOURCES}
 
 def cases(rng: random.Random, tier: str):
     out = []
+    # VERIF_C06_SOURCES=trso,...: run only the named sub-streams (a tool for mutation campaigns on ONE algorithm's source file, never
+    # the registered check); the sub-seeds of the other streams are drawn all the same, so a restricted run replays the full run's cases
+    only = [x for x in os.environ.get("VERIF_C06_SOURCES", "").split(",") if x]
     for src in SOURCES:
         sub = random.Random(rng.randrange(1 << 30))
+        if only and src["name"] not in only:
+            continue
         if tier != "escalated":
             out.extend(src["cases"](sub, tier))
             continue
